@@ -215,6 +215,26 @@ def check(ctx):
                f"notify sets {waited_ev[0] if waited_ev else '?'} on every path - the event wait() blocks on",
                f"wait() blocks on {waited_ev} but notify() sets {set_in_notify}: a caller whose answer has arrived is never woken",
                key="same_event")
+    # each waiter has its own events: the events used by wait()/notify() are created inside __init__ (one construction per
+    # instance) - an Event taken from a parameter default is evaluated once and shared by every PendingAnswer, so the answer
+    # for one caller wakes all of them
+    pini = ctx.need(pa.methods.get("__init__"), "PendingAnswer.__init__")
+    from ..locks import EVENT_CTORS
+    used_events = {c.split(".", 1)[1] for c in w_calls + n_calls if c.startswith("self.") and c.endswith((".wait", ".set", ".clear"))}
+    used_events = {c.rsplit(".", 1)[0] for c in used_events}
+    bad_ev = []
+    for ev_ in sorted(used_events):
+        defs = [x.value for x in walk_no_nested(pini) if isinstance(x, ast.Assign) and any(ast.unparse(t) == f"self.{ev_}" for t in x.targets)]
+        fresh = len(defs) == 1 and isinstance(defs[0], ast.Call) and call_name(defs[0]) in EVENT_CTORS
+        if not fresh:
+            bad_ev.append((ev_, [ast.unparse(d)[:40] for d in defs]))
+    dflt = [ast.unparse(d)[:40] for d in list(pini.args.defaults) + [d for d in pini.args.kw_defaults if d is not None]
+            if isinstance(d, ast.Call)]
+    ctx.decide(not bad_ev and bool(used_events), "R-WHO/event-per-waiter", f"{pa.qual}.__init__", pa.where(pini),
+               f"the rendezvous events {sorted(used_events)} are constructed in __init__, once per waiter",
+               f"the rendezvous events are not constructed per waiter inside __init__: {bad_ev} (call-valued parameter defaults: {dflt}; a "
+               f"default is evaluated once, so all waiters share it): the answer of one request wakes every waiting caller, which then "
+               f"returns without its answer", key="event_per_waiter")
     # rendezvous closed: whatever notify waits for is set by wait() after waking, on every path
     n_waits = [c[:-5] for c in n_calls if c.endswith(".wait")]
     w_sets = [c[:-4] for c in w_calls if c.endswith(".set")]
